@@ -50,9 +50,11 @@ def run_case(case: dict[str, Any]) -> dict[str, Any]:
             kw["align_to"] = EPOCH + timedelta(seconds=align)
         else:
             kw["align_to"] = None
+        if case.get("fn") != "default":  # "default": the library's own resampling function (average)
+            kw["resampling_function"] = fn
         cfg = ResamplerConfig(
             resampling_period=timedelta(seconds=period), max_data_age_in_periods=case["max_age"],
-            resampling_function=fn, initial_buffer_len=case["init_len"],
+            initial_buffer_len=case["init_len"],
             warn_buffer_len=max(1, case["max_len"] - 1), max_buffer_len=case["max_len"], **kw)
         rec["created"] = _now()
         r = Resampler(cfg)
